@@ -1,6 +1,8 @@
 import GqlgenVerif.Lemmas.ServerState
 import GqlgenVerif.Model.ServerStateCfg
 import GqlgenVerif.Gen.PoolReset
+import GqlgenVerif.Lemmas.RespHeaders
+import GqlgenVerif.Gen.RespHeaders
 /-!
 # C07 — a response depends only on its own request, not on earlier or concurrent ones
 
@@ -13,6 +15,9 @@ Property theorems only (helper lemmas: `Lemmas/ServerState.lean`; model: `Model/
   interleaving), **all** `sync.Pool` choices (which pooled struct `Get` returns, whether `Put` keeps it, what
   GC forgets), **all** lawful cache behaviours (any `Get` may miss), all requests, and all interpretations
   `Env` of SHA-256 / gqlparser / mapstructure. Nothing is bounded.
+* Part C covers the other thing an HTTP transport keeps between requests: its configured `ResponseHeaders` map.
+  `mergeHeaders` is translated from `graphql/handler/transport/headers.go` into `Gen/RespHeaders.lean` on every
+  run; writing into a map that was passed in (e.g. the configured one) breaks `merge_headers_pure`.
 * `spec cfg env look r` is what a freshly constructed server answers to `r` alone; `look` is the single thing
   the property allows a server to remember: the text registered for a persisted-query hash.
 -/
@@ -278,5 +283,79 @@ theorem headers_reset_only_hygiene :
     (serveSeq (without "Headers") tenv State.fresh 0 [(rAll, reuse)]).1.pool ≠ [Params.zero] ∧
     (serveSeq (without "Headers") tenv State.fresh 0 [(rAll, reuse), (rBare, reuse)]).2[1]? =
       some (1, spec (without "Headers") tenv (fun _ => none) rBare) := by decide
+
+/-! ## C. The transports' configuration: the long-lived `ResponseHeaders` maps
+
+State = a heap of map objects (the maps the application configured its transports with; several transports may
+share one object). A request names the map of the transport that serves it and carries an `Accept` header; `neg`
+(`determineResponseContentType`: configured map as it is now × Accept → media type) is uninterpreted. -/
+
+section
+open RH
+
+/-- **`mergeHeaders` as it is in the source today stores only into maps it made itself**, and every path returns -/
+theorem merge_headers_pure : pureFrom RespHeaders.mergeProg [] = true := by decide
+
+/-- it has two distinct map parameters (base, additional) -/
+theorem merge_headers_params :
+    RespHeaders.mergeParams.length = 2 ∧ RespHeaders.mergeParams.getD 0 "" ≠ RespHeaders.mergeParams.getD 1 "" := by
+  decide
+
+/-- **no statement of package transport stores into a map that can outlive the request** (a map parameter, a
+map-typed field of a transport receiver such as `h.ResponseHeaders`, a package-level map, or an alias of one) -/
+theorem no_store_into_configured_maps : RespHeaders.sharedMapWrites = [] := by decide
+
+/-- the scan really covered the transports of this check -/
+theorem transports_scanned :
+    (∀ t ∈ ["GET", "POST", "UrlEncodedForm", "GRAPHQL", "MultipartForm"], t ∈ RespHeaders.transportTypes) ∧
+    0 < RespHeaders.functionsScanned := by decide
+
+/-- **serving a request never changes a configured map** (whatever the maps hold, whichever transport serves,
+whatever `Accept` says, however `determineResponseContentType` negotiates), and the call does not panic -/
+theorem configured_headers_never_change (neg : HMap → String → String) (h : Heap) (cfg : Ref) (accept : String) :
+    (serve RespHeaders.mergeProg RespHeaders.mergeParams neg h cfg accept).2 = h ∧
+    (serve RespHeaders.mergeProg RespHeaders.mergeParams neg h cfg accept).1.isSome = true :=
+  serve_pure _ _ neg merge_headers_pure h cfg accept
+
+/-- **response_headers_history_independent**: for ALL histories of requests over all transports of one server,
+the negotiated media type and the header map of every response are those a freshly configured server gives for
+that request alone. -/
+theorem response_headers_history_independent (neg : HMap → String → String) (h : Heap) (reqs : List (Ref × String)) :
+    serveAll RespHeaders.mergeProg RespHeaders.mergeParams neg h reqs =
+      reqs.map (fun r => (serve RespHeaders.mergeProg RespHeaders.mergeParams neg h r.1 r.2).1) :=
+  serveAll_pure _ _ neg merge_headers_pure h reqs
+
+/-- a concrete `determineResponseContentType`: a configured Content-Type wins, otherwise the Accept text -/
+def tneg (m : HMap) (accept : String) : String :=
+  match m.find? (fun e => e.1 == "Content-Type") with
+  | some e => e.2.headD ""
+  | none => accept
+
+/-- non-vacuity / sanity of the translation: with CORS headers configured (one shared map, address 0) two requests
+with different `Accept` each get their own media type plus the configured header -/
+example : serveAll RespHeaders.mergeProg RespHeaders.mergeParams tneg [[("Access-Control-Allow-Origin", ["*"])]]
+      [(some 0, "gr+json"), (some 0, "json"), (none, "json")] =
+    [some ("gr+json", [("Content-Type", ["gr+json"]), ("Access-Control-Allow-Origin", ["*"])]),
+     some ("json", [("Content-Type", ["json"]), ("Access-Control-Allow-Origin", ["*"])]),
+     some ("json", [("Content-Type", ["json"])])] := by decide
+
+/-- a `mergeHeaders` that saves the allocation by filling the missing base entries into `additional` -/
+def mergeIntoAdditional : List HStmt :=
+  [.retIfEmpty "additionalHeaders" "baseHeaders", .alias "result" "additionalHeaders",
+   .copy "baseHeaders" "result" true, .ret "result"]
+
+/-- **the theorem really rests on `merge_headers_pure`**: with `mergeIntoAdditional` the analysis says "not pure",
+and the model has a two-request history (first `Accept` negotiates one media type, the second another; CORS
+headers configured) whose second answer is the FIRST request's media type - the configured map now holds it. -/
+theorem merge_into_configured_map_leaks_witness :
+    pureFrom mergeIntoAdditional [] = false ∧
+    serveAll mergeIntoAdditional ["baseHeaders", "additionalHeaders"] tneg [[("Access-Control-Allow-Origin", ["*"])]]
+        [(some 0, "gr+json"), (some 0, "json")] ≠
+      [(some 0, "gr+json"), (some 0, "json")].map (fun r =>
+        (serve mergeIntoAdditional ["baseHeaders", "additionalHeaders"] tneg [[("Access-Control-Allow-Origin", ["*"])]] r.1 r.2).1) ∧
+    (serve mergeIntoAdditional ["baseHeaders", "additionalHeaders"] tneg [[("Access-Control-Allow-Origin", ["*"])]]
+        (some 0) "gr+json").2 ≠ [[("Access-Control-Allow-Origin", ["*"])]] := by decide
+
+end
 
 end GqlgenVerif.C07
